@@ -319,12 +319,9 @@ theorem refresh_some {l r : List Plugin} {c c' : Cont} (h : refresh l r c = some
     exact ⟨by injection h with h; exact h.symm, (dupFree_iff _).1 hd⟩
   · cases h
 
-/-- what the root's `refreshTree` does to one container. -/
-def stepCont (l r : List Plugin) (c : Cont) : Option Cont :=
-  if c.depth ≤ 1 then refresh l r c else some c
-
+/-- the root's `refreshTree` refreshes every container, each at its own index. -/
 theorem refreshConts_get (l r : List Plugin) : ∀ (cs cs' : List Cont), refreshConts l r cs = some cs' →
-    ∀ i : Nat, cs'[i]? = (cs[i]?).bind (stepCont l r) := by
+    ∀ i : Nat, cs'[i]? = (cs[i]?).bind (refresh l r) := by
   intro cs
   induction cs with
   | nil => intro cs' h i; simp [refreshConts] at h; subst h; simp
@@ -335,139 +332,115 @@ theorem refreshConts_get (l r : List Plugin) : ∀ (cs cs' : List Cont), refresh
     · rename_i c' cs'' h1 h2
       injection h with h; subst h
       cases i with
-      | zero => simp [stepCont, h1]
+      | zero => simp [h1]
       | succ j => simpa using ih cs'' h2 j
     · cases h
 
-theorem stepCont_some {l r : List Plugin} {c c' : Cont} (h : stepCont l r c = some c') :
-    c'.depth = c.depth ∧ c'.middle = c.middle ∧
-    (c.depth ≤ 1 → c'.all = l ++ c.middle ++ r ∧ (names c'.all).Nodup) ∧ (¬ c.depth ≤ 1 → c' = c) := by
-  unfold stepCont at h
-  split at h
-  · rename_i hd
-    obtain ⟨e, hn⟩ := refresh_some h
-    subst e
-    exact ⟨rfl, rfl, fun _ => ⟨rfl, hn⟩, fun h => absurd hd h⟩
-  · rename_i hd
-    injection h with h; subst h
-    exact ⟨rfl, rfl, fun h => absurd h hd, fun _ => rfl⟩
-
-/-- what an in-place `append` of a sibling can change in an existing container: only the
-    plugins seen through `middle` — never its length, never `all`. -/
-def Sim (c c' : Cont) : Prop :=
-  c'.depth = c.depth ∧ c'.all = c.all ∧ c'.chain = c.chain ∧ c'.arr = c.arr ∧ c'.cap = c.cap ∧
-  c'.middle.length = c.middle.length
-
-theorem overwrite_length (l : List Plugin) (n : Nat) (ps : List Plugin) (h : n < l.length) :
-    (overwrite l n ps).length = l.length := by
-  simp only [overwrite, List.length_append, List.length_take, List.length_drop]; omega
-
-theorem clobber_sim (a n : Nat) (ps : List Plugin) (d : Cont) : Sim d (clobber a n ps d) := by
-  unfold clobber
-  split
-  · rename_i h; exact ⟨rfl, rfl, rfl, rfl, rfl, overwrite_length _ _ _ h.2⟩
-  · exact ⟨rfl, rfl, rfl, rfl, rfl, rfl⟩
-
-theorem sim_refl (c : Cont) : Sim c c := ⟨rfl, rfl, rfl, rfl, rfl, rfl⟩
-
-/-- the state invariant of a peer's containers (every reachable configuration). -/
-structure SInv (P : Peer) : Prop where
-  /-- the unique-name check of `refresh`: no list a stage iterates has two plugins of one name -/
-  nodup : ∀ (i : Nat) (c : Cont), P.conts[i]? = some c → (names c.all).Nodup
-  /-- container 0 is the global one: depth 0, empty middle, and its list is up to date -/
-  root : ∃ c, P.conts[0]? = some c ∧ c.depth = 0 ∧ c.middle = [] ∧ c.chain = [] ∧ c.cap = 0 ∧
-    c.all = P.left ++ P.right
+theorem refreshConts_length (l r : List Plugin) : ∀ (cs cs' : List Cont), refreshConts l r cs = some cs' →
+    cs'.length = cs.length := by
+  intro cs
+  induction cs with
+  | nil => intro cs' h; simp [refreshConts] at h; subst h; rfl
+  | cons c cs ih =>
+    intro cs' h
+    unfold refreshConts at h
+    split at h
+    · rename_i c' cs'' h1 h2
+      injection h with h; subst h
+      simp [ih cs'' h2]
+    · cases h
 
 /-- every container's list is `left ++ (plugins registered along its route) ++ right` with the
     current global plugins (what the property text assumes). -/
 def Fresh (P : Peer) : Prop :=
   ∀ (i : Nat) (c : Cont), P.conts[i]? = some c → c.all = P.left ++ c.chain ++ P.right
 
+/-- the state invariant of a peer's containers (every reachable configuration). -/
+structure SInv (P : Peer) : Prop where
+  /-- the unique-name check of `refresh`: no list a stage iterates has two plugins of one name -/
+  nodup : ∀ (i : Nat) (c : Cont), P.conts[i]? = some c → (names c.all).Nodup
+  /-- container 0 is the global one: empty middle, and its list is `left ++ right` -/
+  root : ∃ c, P.conts[0]? = some c ∧ c.middle = [] ∧ c.chain = [] ∧ c.all = P.left ++ P.right
+  /-- no aliasing: every container's `middle` slice holds exactly the plugins registered along
+      its route (parent's chain, then its own), whatever was registered elsewhere afterwards -/
+  clean : ∀ (i : Nat) (c : Cont), P.conts[i]? = some c → c.middle = c.chain
+  /-- every container is up to date with the current global plugins -/
+  fresh : Fresh P
+
 theorem sinv_new : SInv Peer.new := by
-  refine ⟨?_, ?_⟩
-  · intro i c h
+  have one : ∀ (i : Nat) (c : Cont), Peer.new.conts[i]? = some c →
+      c = { chain := [], middle := [], all := [] } := by
+    intro i c h
     cases i with
-    | zero => simp [Peer.new] at h; subst h; simp [names]
+    | zero => simp [Peer.new] at h; exact h.symm
     | succ j => simp [Peer.new] at h
-  · exact ⟨_, rfl, rfl, rfl, rfl, rfl, rfl⟩
+  refine ⟨?_, ⟨_, rfl, rfl, rfl, rfl⟩, ?_, ?_⟩
+  · intro i c h; rw [one i c h]; simp [names]
+  · intro i c h; rw [one i c h]
+  · intro i c h; rw [one i c h]; rfl
 
 theorem refreshTree_spec {P P' : Peer} (h : refreshTree P = some P') :
     P'.left = P.left ∧ P'.right = P.right ∧ P'.groups = P.groups ∧ P'.calls = P.calls ∧ P'.pushes = P.pushes ∧
-    P'.unkCall = P.unkCall ∧ P'.unkPush = P.unkPush ∧
-    ∀ i : Nat, P'.conts[i]? = (P.conts[i]?).bind (stepCont P.left P.right) := by
+    P'.unkCall = P.unkCall ∧ P'.unkPush = P.unkPush ∧ P'.conts.length = P.conts.length ∧
+    ∀ i : Nat, P'.conts[i]? = (P.conts[i]?).bind (refresh P.left P.right) := by
   unfold refreshTree at h
   cases hc : refreshConts P.left P.right P.conts with
   | none => simp [hc] at h
   | some cs =>
     simp [hc] at h; subst h
-    exact ⟨rfl, rfl, rfl, rfl, rfl, rfl, rfl, refreshConts_get _ _ _ _ hc⟩
+    exact ⟨rfl, rfl, rfl, rfl, rfl, rfl, rfl, refreshConts_length _ _ _ _ hc, refreshConts_get _ _ _ _ hc⟩
 
-theorem stepCont_some' {l r : List Plugin} {c c' : Cont} (h : stepCont l r c = some c') :
-    c'.depth = c.depth ∧ c'.middle = c.middle ∧ c'.chain = c.chain ∧ c'.arr = c.arr ∧ c'.cap = c.cap ∧
-    (c.depth ≤ 1 → c'.all = l ++ c.middle ++ r ∧ (names c'.all).Nodup) ∧ (¬ c.depth ≤ 1 → c' = c) := by
-  unfold stepCont at h
-  split at h
-  · rename_i hd
-    obtain ⟨e, hn⟩ := refresh_some h
-    subst e
-    exact ⟨rfl, rfl, rfl, rfl, rfl, fun _ => ⟨rfl, hn⟩, fun h => absurd hd h⟩
-  · rename_i hd
-    injection h with h; subst h
-    exact ⟨rfl, rfl, rfl, rfl, rfl, fun h => absurd h hd, fun _ => rfl⟩
+/-- a container of the result of `refreshTree` is the refreshed container of the same index. -/
+theorem refreshTree_get {Q P' : Peer} (h : refreshTree Q = some P') {i : Nat} {c' : Cont}
+    (hc' : P'.conts[i]? = some c') : ∃ c, Q.conts[i]? = some c ∧
+      c' = { c with all := Q.left ++ c.middle ++ Q.right } ∧ (names c'.all).Nodup := by
+  obtain ⟨_, _, _, _, _, _, _, _, hi⟩ := refreshTree_spec h
+  rw [hi i] at hc'
+  cases hg : Q.conts[i]? with
+  | none => simp [hg] at hc'
+  | some c =>
+    simp [hg] at hc'
+    obtain ⟨e, hn⟩ := refresh_some hc'
+    exact ⟨c, rfl, e, by rw [e]; exact hn⟩
 
-/-- the root's `refreshTree` never fails on the root alone once it succeeded as a whole. -/
-theorem refreshTree_root {Q P' : Peer} {c : Cont} (h0 : Q.conts[0]? = some c) (h : refreshTree Q = some P') :
-    ∃ c', stepCont Q.left Q.right c = some c' ∧ P'.conts[0]? = some c' := by
-  obtain ⟨_, _, _, _, _, _, _, hi⟩ := refreshTree_spec h
-  have := hi 0
-  rw [h0] at this
-  simp at this
-  cases hs : stepCont Q.left Q.right c with
-  | some c' => rw [hs] at this; exact ⟨c', rfl, this⟩
-  | none =>
-    exfalso
-    unfold refreshTree at h
-    cases hc : refreshConts Q.left Q.right Q.conts with
-    | none => simp [hc] at h
-    | some cs =>
-      cases hcs : Q.conts with
-      | nil => rw [hcs] at h0; simp at h0
-      | cons c0 rest =>
-        rw [hcs] at h0 hc
-        simp at h0; subst h0
-        unfold refreshConts at hc
-        unfold stepCont at hs
-        rw [hs] at hc
-        simp at hc
+/-- `refreshTree` succeeded, so the container at an existing index was refreshed. -/
+theorem refreshTree_at {Q P' : Peer} (h : refreshTree Q = some P') {i : Nat} {c : Cont}
+    (hc : Q.conts[i]? = some c) : P'.conts[i]? = some { c with all := Q.left ++ c.middle ++ Q.right } := by
+  obtain ⟨_, _, _, _, _, _, _, hlen, _⟩ := refreshTree_spec h
+  have hi : i < Q.conts.length := by
+    by_cases hi : i < Q.conts.length
+    · exact hi
+    · rw [List.getElem?_eq_none (Nat.le_of_not_lt hi)] at hc; cases hc
+  have hi' : i < P'.conts.length := by omega
+  obtain ⟨c0, h0, e, _⟩ := refreshTree_get h (List.getElem?_eq_getElem hi')
+  rw [hc] at h0; injection h0 with h0; subst h0
+  rw [List.getElem?_eq_getElem hi', e]
 
-/-- `refreshTree` after `left`/`right` were changed to anything: the invariant is re-established. -/
+/-- `refreshTree` after `left`/`right` were changed to anything: the invariant is re-established —
+    in particular EVERY container is up to date again. -/
 theorem sinv_refreshTree {P Q P' : Peer} (hP : SInv P) (hQ : Q.conts = P.conts)
     (h : refreshTree Q = some P') : SInv P' := by
-  obtain ⟨hl, hr, _, _, _, _, _, hi⟩ := refreshTree_spec h
-  refine ⟨?_, ?_⟩
+  obtain ⟨hl, hr, _⟩ := refreshTree_spec h
+  refine ⟨?_, ?_, ?_, ?_⟩
   · intro i c' hc'
-    rw [hi i, hQ] at hc'
-    cases hg : P.conts[i]? with
-    | none => simp [hg] at hc'
-    | some c =>
-      simp [hg] at hc'
-      obtain ⟨_, _, _, _, _, h1, h2⟩ := stepCont_some' hc'
-      by_cases hd : c.depth ≤ 1
-      · exact (h1 hd).2
-      · rw [h2 hd]; exact hP.nodup i c hg
-  · obtain ⟨c, h0, hd, hm, hch, hcap, _⟩ := hP.root
-    obtain ⟨c', hs, h0'⟩ := refreshTree_root (Q := Q) (by rw [hQ]; exact h0) h
-    obtain ⟨e1, e2, e3, _, e5, h1, _⟩ := stepCont_some' hs
-    refine ⟨c', h0', by rw [e1, hd], by rw [e2, hm], by rw [e3, hch], by rw [e5, hcap], ?_⟩
-    rw [(h1 (by omega)).1, hm, hl, hr]; simp
+    obtain ⟨c, _, _, hn⟩ := refreshTree_get h hc'
+    exact hn
+  · obtain ⟨c, h0, hm, hch, _⟩ := hP.root
+    refine ⟨_, refreshTree_at h (by rw [hQ]; exact h0), hm, hch, ?_⟩
+    simp only; rw [hm, hl, hr]; simp
+  · intro i c' hc'
+    obtain ⟨c, hg, e, _⟩ := refreshTree_get h hc'
+    rw [hQ] at hg
+    rw [e]; exact hP.clean i c hg
+  · intro i c' hc'
+    obtain ⟨c, hg, e, _⟩ := refreshTree_get h hc'
+    rw [hQ] at hg
+    rw [e, hl, hr]; simp only; rw [hP.clean i c hg]
 
 theorem clone_spec {P P' : Peer} {i k : Nat} {ps : List Plugin} (h : clone P i ps = some (P', k)) :
-    ∃ (c : Cont) (g : Cont → Cont), P' = { P with conts := P.conts.map g ++ [c] } ∧ k = P.conts.length ∧
-      (∀ d, Sim d (g d)) ∧ (inPlace (contAt P i) ps = false → ∀ d, g d = d) ∧
-      c.depth = (contAt P i).depth + 1 ∧ c.middle = (contAt P i).middle ++ ps ∧
+    ∃ c : Cont, P' = { P with conts := P.conts ++ [c] } ∧ k = P.conts.length ∧
+      c.middle = (contAt P i).middle ++ ps ∧
       c.chain = (contAt P i).chain ++ ps ∧
-      c.cap = (if ps.isEmpty || inPlace (contAt P i) ps then (contAt P i).cap
-               else roundCap (nextCap (contAt P i).cap ((contAt P i).middle.length + ps.length))) ∧
       c.all = P.left ++ ((contAt P i).middle ++ ps) ++ P.right ∧ (names c.all).Nodup := by
   unfold clone at h
   simp only at h
@@ -475,14 +448,8 @@ theorem clone_spec {P P' : Peer} {i k : Nat} {ps : List Plugin} (h : clone P i p
   · rename_i c hc
     obtain ⟨e, hn⟩ := refresh_some hc
     injection h with h; injection h with h1 h2
-    by_cases hip : inPlace (contAt P i) ps = true
-    · refine ⟨c, clobber (contAt P i).arr (contAt P i).middle.length ps, ?_, h2.symm, clobber_sim _ _ _, ?_, ?_, ?_, ?_, ?_, ?_, ?_⟩
-      · rw [← h1]; simp [hip]
-      · intro hf; rw [hf] at hip; cases hip
-      all_goals (subst e; simp_all)
-    · refine ⟨c, id, ?_, h2.symm, sim_refl, fun _ _ => rfl, ?_, ?_, ?_, ?_, ?_, ?_⟩
-      · rw [← h1]; simp [hip]
-      all_goals (subst e; simp_all)
+    refine ⟨c, h1.symm, h2.symm, ?_, ?_, ?_, ?_⟩
+    all_goals (subst e; first | rfl | exact hn)
   · cases h
 
 theorem getElem?_snoc {α} (l : List α) (a : α) (i : Nat) (x : α) (h : (l ++ [a])[i]? = some x) :
@@ -499,82 +466,108 @@ theorem getElem?_snoc {α} (l : List α) (a : α) (i : Nat) (x : α) (h : (l ++ 
       | zero => exact absurd hk this
       | succ j => rw [hk] at h; simp at h
 
-/-- membership in the container list after a clone: an old container (up to `Sim`) or the new one. -/
-theorem clone_mem {P : Peer} {g : Cont → Cont} {c x : Cont} {j : Nat}
-    (hx : (P.conts.map g ++ [c])[j]? = some x) :
-    (∃ d, P.conts[j]? = some d ∧ x = g d) ∨ (j = P.conts.length ∧ x = c) := by
-  rcases getElem?_snoc _ _ _ _ hx with h1 | ⟨h2, h3⟩
-  · left
-    rw [List.getElem?_map] at h1
-    cases hd : P.conts[j]? with
-    | none => rw [hd] at h1; simp at h1
-    | some d => rw [hd] at h1; simp at h1; exact ⟨d, rfl, h1.symm⟩
-  · right; simp at h2; exact ⟨h2, h3⟩
+/-- an existing container keeps its index and its content when another one is cloned. -/
+theorem getElem?_snoc_old {α} (l : List α) (a : α) (i : Nat) (x : α) (h : l[i]? = some x) :
+    (l ++ [a])[i]? = some x := by
+  have hi : i < l.length := by
+    by_cases hi : i < l.length
+    · exact hi
+    · rw [List.getElem?_eq_none (Nat.le_of_not_lt hi)] at h; cases h
+  rw [List.getElem?_append_left hi]; exact h
+
+theorem contAt_of_get {P : Peer} {i : Nat} {c : Cont} (h : P.conts[i]? = some c) : contAt P i = c := by
+  unfold contAt; simp [List.getD, h]
+
+/-- the parent of a clone (whatever index the router passes) has an un-aliased `middle`. -/
+theorem SInv.contAt_clean {P : Peer} (hP : SInv P) (i : Nat) : (contAt P i).middle = (contAt P i).chain := by
+  cases hc : P.conts[i]? with
+  | none => unfold contAt; simp [List.getD, hc]
+  | some c => rw [contAt_of_get hc]; exact hP.clean i c hc
 
 theorem sinv_clone {P P' : Peer} {i k : Nat} {ps : List Plugin} (hP : SInv P)
     (h : clone P i ps = some (P', k)) : SInv P' := by
-  obtain ⟨c, g, e, _, hsim, _, _, _, _, _, _, hn⟩ := clone_spec h
+  obtain ⟨c, e, _, hm, hch, ha, hn⟩ := clone_spec h
   subst e
-  refine ⟨?_, ?_⟩
+  refine ⟨?_, ?_, ?_, ?_⟩
   · intro j x hx
-    rcases clone_mem hx with ⟨d, hd, e⟩ | ⟨_, e⟩
-    · subst e; rw [(hsim d).2.1]; exact hP.nodup j d hd
+    rcases getElem?_snoc _ _ _ _ hx with hd | ⟨_, e⟩
+    · exact hP.nodup j x hd
     · subst e; exact hn
-  · obtain ⟨r, h0, h1, h2, h3, h4, h5⟩ := hP.root
-    have hlen : 0 < (P.conts.map g).length := by
-      cases hc : P.conts with
-      | nil => rw [hc] at h0; simp at h0
-      | cons _ _ => simp
-    refine ⟨g r, ?_, ?_, ?_, ?_, ?_, ?_⟩
-    · simp only; rw [List.getElem?_append_left hlen, List.getElem?_map, h0]; rfl
-    · rw [(hsim r).1, h1]
-    · have := (hsim r).2.2.2.2.2; rw [h2] at this; simpa using this
-    · rw [(hsim r).2.2.1, h3]
-    · rw [(hsim r).2.2.2.2.1, h4]
-    · rw [(hsim r).2.1]; exact h5
+  · obtain ⟨r, h0, h2, h3, h5⟩ := hP.root
+    exact ⟨r, getElem?_snoc_old _ _ _ _ h0, h2, h3, h5⟩
+  · intro j x hx
+    rcases getElem?_snoc _ _ _ _ hx with hd | ⟨_, e⟩
+    · exact hP.clean j x hd
+    · subst e; rw [hm, hch, hP.contAt_clean i]
+  · intro j x hx
+    rcases getElem?_snoc _ _ _ _ hx with hd | ⟨_, e⟩
+    · exact hP.fresh j x hd
+    · subst e; simp only; rw [ha, hch, hP.contAt_clean i]
+
+/-- the shape of every operation: a routing operation is one `clone` plus an entry in a routing
+    table; a global operation changes `left`/`right` and runs the root's `refreshTree` (or, for a
+    `Remove` of an absent name, nothing). -/
+theorem apply_cases {P P' : Peer} (o : Op) (h : apply P o = some P') :
+    (o.isGlobal = false ∧ ∃ (i : Nat) (ps : List Plugin) (Q : Peer) (k : Nat), clone P i ps = some (Q, k) ∧
+        P'.left = Q.left ∧ P'.right = Q.right ∧ P'.conts = Q.conts) ∨
+    (o.isGlobal = true ∧
+      ((∃ Q : Peer, Q.conts = P.conts ∧ Q.groups = P.groups ∧ refreshTree Q = some P') ∨ P' = P)) := by
+  cases o with
+  | subRoute g ps =>
+    left; refine ⟨rfl, ?_⟩
+    simp only [apply] at h
+    cases hc : clone P (groupCont P g) ps with
+    | none => simp [hc] at h
+    | some pk => obtain ⟨Q, k⟩ := pk; simp [hc] at h; subst h; exact ⟨_, _, Q, k, hc, rfl, rfl, rfl⟩
+  | routeCall g id ps =>
+    left; refine ⟨rfl, ?_⟩
+    simp only [apply] at h
+    cases hc : clone P (groupCont P g) ps with
+    | none => simp [hc] at h
+    | some pk =>
+      obtain ⟨Q, k⟩ := pk; simp [hc] at h
+      obtain ⟨_, h⟩ := h; subst h; exact ⟨_, _, Q, k, hc, rfl, rfl, rfl⟩
+  | routePush g id ps =>
+    left; refine ⟨rfl, ?_⟩
+    simp only [apply] at h
+    cases hc : clone P (groupCont P g) ps with
+    | none => simp [hc] at h
+    | some pk =>
+      obtain ⟨Q, k⟩ := pk; simp [hc] at h
+      obtain ⟨_, h⟩ := h; subst h; exact ⟨_, _, Q, k, hc, rfl, rfl, rfl⟩
+  | unknownCall ps =>
+    left; refine ⟨rfl, ?_⟩
+    simp only [apply] at h
+    cases hc : clone P 0 ps with
+    | none => simp [hc] at h
+    | some pk => obtain ⟨Q, k⟩ := pk; simp [hc] at h; subst h; exact ⟨_, _, Q, k, hc, rfl, rfl, rfl⟩
+  | unknownPush ps =>
+    left; refine ⟨rfl, ?_⟩
+    simp only [apply] at h
+    cases hc : clone P 0 ps with
+    | none => simp [hc] at h
+    | some pk => obtain ⟨Q, k⟩ := pk; simp [hc] at h; subst h; exact ⟨_, _, Q, k, hc, rfl, rfl, rfl⟩
+  | appendLeft ps => right; exact ⟨rfl, Or.inl ⟨{ P with left := ps ++ P.left }, rfl, rfl, h⟩⟩
+  | appendRight ps => right; exact ⟨rfl, Or.inl ⟨{ P with right := P.right ++ ps }, rfl, rfl, h⟩⟩
+  | remove n =>
+    right; refine ⟨rfl, ?_⟩
+    simp only [apply] at h
+    split at h
+    · exact Or.inl ⟨{ P with left := eraseName n P.left, right := eraseName n P.right }, rfl, rfl, h⟩
+    · injection h with h; exact Or.inr h.symm
+
+/-- the invariant only reads `left`, `right` and the containers. -/
+theorem sinv_fields {Q Q' : Peer} (hQ : SInv Q) (e1 : Q'.left = Q.left) (e2 : Q'.right = Q.right)
+    (e3 : Q'.conts = Q.conts) : SInv Q' :=
+  ⟨by rw [e3]; exact hQ.nodup, by rw [e1, e2, e3]; exact hQ.root, by rw [e3]; exact hQ.clean,
+   by unfold Fresh; rw [e1, e2, e3]; exact hQ.fresh⟩
 
 /-- invariance under one operation. -/
 theorem sinv_apply {P P' : Peer} (o : Op) (hP : SInv P) (h : apply P o = some P') : SInv P' := by
-  have fields : ∀ {Q Q' : Peer}, SInv Q → Q'.left = Q.left → Q'.right = Q.right → Q'.conts = Q.conts → SInv Q' := by
-    intro Q Q' hQ e1 e2 e3
-    exact ⟨by rw [e3]; exact hQ.nodup, by rw [e1, e2, e3]; exact hQ.root⟩
-  cases o with
-  | subRoute g ps =>
-    simp only [apply] at h
-    cases hc : clone P (groupCont P g) ps with
-    | none => simp [hc] at h
-    | some pk => obtain ⟨Q, k⟩ := pk; simp [hc] at h; subst h; exact fields (sinv_clone hP hc) rfl rfl rfl
-  | routeCall g id ps =>
-    simp only [apply] at h
-    cases hc : clone P (groupCont P g) ps with
-    | none => simp [hc] at h
-    | some pk =>
-      obtain ⟨Q, k⟩ := pk; simp [hc] at h
-      obtain ⟨_, h⟩ := h; subst h; exact fields (sinv_clone hP hc) rfl rfl rfl
-  | routePush g id ps =>
-    simp only [apply] at h
-    cases hc : clone P (groupCont P g) ps with
-    | none => simp [hc] at h
-    | some pk =>
-      obtain ⟨Q, k⟩ := pk; simp [hc] at h
-      obtain ⟨_, h⟩ := h; subst h; exact fields (sinv_clone hP hc) rfl rfl rfl
-  | unknownCall ps =>
-    simp only [apply] at h
-    cases hc : clone P 0 ps with
-    | none => simp [hc] at h
-    | some pk => obtain ⟨Q, k⟩ := pk; simp [hc] at h; subst h; exact fields (sinv_clone hP hc) rfl rfl rfl
-  | unknownPush ps =>
-    simp only [apply] at h
-    cases hc : clone P 0 ps with
-    | none => simp [hc] at h
-    | some pk => obtain ⟨Q, k⟩ := pk; simp [hc] at h; subst h; exact fields (sinv_clone hP hc) rfl rfl rfl
-  | appendLeft ps => exact sinv_refreshTree (Q := { P with left := ps ++ P.left }) hP rfl h
-  | appendRight ps => exact sinv_refreshTree (Q := { P with right := P.right ++ ps }) hP rfl h
-  | remove n =>
-    simp only [apply] at h
-    split at h
-    · exact sinv_refreshTree (Q := { P with left := eraseName n P.left, right := eraseName n P.right }) hP rfl h
-    · injection h with h; subst h; exact hP
+  rcases apply_cases o h with ⟨_, i, ps, Q, k, hc, e1, e2, e3⟩ | ⟨_, ⟨Q, hQ, _, ht⟩ | e⟩
+  · exact sinv_fields (sinv_clone hP hc) e1 e2 e3
+  · exact sinv_refreshTree hP hQ ht
+  · rw [e]; exact hP
 
 theorem sinv_run : ∀ (ops : List Op) {P P' : Peer}, SInv P → run P ops = some P' → SInv P' := by
   intro ops
@@ -606,318 +599,145 @@ theorem SInv.allOf_nodup {P : Peer} (h : SInv P) (i : Nat) : (names (allOf P i))
   | some c => simp [List.getD, hc]; exact h.nodup i c hc
 
 theorem SInv.globalAll_eq {P : Peer} (h : SInv P) : globalAll P = P.left ++ P.right := by
-  obtain ⟨c, h0, _, _, _, _, ha⟩ := h.root
+  obtain ⟨c, h0, _, _, ha⟩ := h.root
   unfold globalAll allOf contAt
   simp [List.getD, h0, ha]
 
-/-! ### containers below the first level are frozen -/
+/-- the list the stages iterate for an existing container: current global-left plugins, the
+    route's chain, current global-right plugins. -/
+theorem SInv.allOf_eq {P : Peer} (h : SInv P) {i : Nat} (hi : i < P.conts.length) :
+    allOf P i = P.left ++ (contAt P i).chain ++ P.right := by
+  have hc : P.conts[i]? = some P.conts[i] := List.getElem?_eq_getElem hi
+  unfold allOf
+  rw [contAt_of_get hc]
+  exact h.fresh i _ hc
 
-/-- containers below the root's direct clones are never refreshed again: `all` stays. -/
-theorem frozen_apply {P P' : Peer} (o : Op) (h : apply P o = some P') (i : Nat) (c : Cont)
-    (hc : P.conts[i]? = some c) (hd : ¬ c.depth ≤ 1) :
-    ∃ c', P'.conts[i]? = some c' ∧ c'.all = c.all ∧ c'.depth = c.depth := by
-  have viaClone : ∀ {Q : Peer} {j k : Nat} {ps : List Plugin}, clone P j ps = some (Q, k) →
-      ∃ c', Q.conts[i]? = some c' ∧ c'.all = c.all ∧ c'.depth = c.depth := by
-    intro Q j k ps hq
-    obtain ⟨c', g, e, _, hsim, _⟩ := clone_spec hq
-    subst e
-    have hi : i < (P.conts.map g).length := by
-      by_cases hi : i < P.conts.length
-      · simpa using hi
-      · rw [List.getElem?_eq_none (Nat.le_of_not_lt hi)] at hc; cases hc
-    refine ⟨g c, ?_, (hsim c).2.1, (hsim c).1⟩
-    simp only; rw [List.getElem?_append_left hi, List.getElem?_map, hc]; rfl
-  have viaTree : ∀ {Q : Peer}, Q.conts = P.conts → refreshTree Q = some P' →
-      ∃ c', P'.conts[i]? = some c' ∧ c'.all = c.all ∧ c'.depth = c.depth := by
-    intro Q hQ ht
-    obtain ⟨_, _, _, _, _, _, _, hi⟩ := refreshTree_spec ht
-    refine ⟨c, ?_, rfl, rfl⟩
-    rw [hi i, hQ, hc]; simp [stepCont, hd]
+/-! ### the routing tables point at existing containers -/
+
+/-- every handler registered in a routing table has a container. -/
+structure TInv (P : Peer) : Prop where
+  calls : ∀ e ∈ P.calls, e.2 < P.conts.length
+  pushes : ∀ e ∈ P.pushes, e.2 < P.conts.length
+  unkCall : ∀ k, P.unkCall = some k → k < P.conts.length
+  unkPush : ∀ k, P.unkPush = some k → k < P.conts.length
+
+theorem tinv_new : TInv Peer.new := by
+  refine ⟨?_, ?_, ?_, ?_⟩ <;> simp [Peer.new]
+
+theorem TInv.mono {P Q : Peer} (hP : TInv P) (hl : P.conts.length ≤ Q.conts.length) (e1 : Q.calls = P.calls)
+    (e2 : Q.pushes = P.pushes) (e3 : Q.unkCall = P.unkCall) (e4 : Q.unkPush = P.unkPush) : TInv Q :=
+  ⟨fun e he => Nat.lt_of_lt_of_le (hP.calls e (e1 ▸ he)) hl,
+   fun e he => Nat.lt_of_lt_of_le (hP.pushes e (e2 ▸ he)) hl,
+   fun k hk => Nat.lt_of_lt_of_le (hP.unkCall k (e3 ▸ hk)) hl,
+   fun k hk => Nat.lt_of_lt_of_le (hP.unkPush k (e4 ▸ hk)) hl⟩
+
+/-- after a clone the tables are unchanged, there is one more container, and `k` is its index. -/
+theorem tinv_clone {P Q : Peer} {i k : Nat} {ps : List Plugin} (hP : TInv P) (h : clone P i ps = some (Q, k)) :
+    TInv Q ∧ k < Q.conts.length := by
+  obtain ⟨c, e, hk, _⟩ := clone_spec h
+  subst e; subst hk
+  exact ⟨hP.mono (by simp) rfl rfl rfl rfl, by simp⟩
+
+theorem tinv_apply {P P' : Peer} (o : Op) (hP : TInv P) (h : apply P o = some P') : TInv P' := by
+  have viaTree : ∀ {Q : Peer}, Q.conts = P.conts → Q.calls = P.calls → Q.pushes = P.pushes →
+      Q.unkCall = P.unkCall → Q.unkPush = P.unkPush → refreshTree Q = some P' → TInv P' := by
+    intro Q e0 e1 e2 e3 e4 ht
+    obtain ⟨_, _, _, f1, f2, f3, f4, hlen, _⟩ := refreshTree_spec ht
+    exact hP.mono (by rw [hlen, e0]; exact Nat.le_refl _) (by rw [f1, e1]) (by rw [f2, e2]) (by rw [f3, e3]) (by rw [f4, e4])
   cases o with
   | subRoute g ps =>
     simp only [apply] at h
-    cases hq : clone P (groupCont P g) ps with
-    | none => simp [hq] at h
-    | some pk => obtain ⟨Q, k⟩ := pk; simp [hq] at h; subst h; exact viaClone (Q := Q) hq
-  | routeCall g id ps =>
-    simp only [apply] at h
-    cases hq : clone P (groupCont P g) ps with
-    | none => simp [hq] at h
-    | some pk => obtain ⟨Q, k⟩ := pk; simp [hq] at h; obtain ⟨_, h⟩ := h; subst h; exact viaClone (Q := Q) hq
-  | routePush g id ps =>
-    simp only [apply] at h
-    cases hq : clone P (groupCont P g) ps with
-    | none => simp [hq] at h
-    | some pk => obtain ⟨Q, k⟩ := pk; simp [hq] at h; obtain ⟨_, h⟩ := h; subst h; exact viaClone (Q := Q) hq
-  | unknownCall ps =>
-    simp only [apply] at h
-    cases hq : clone P 0 ps with
-    | none => simp [hq] at h
-    | some pk => obtain ⟨Q, k⟩ := pk; simp [hq] at h; subst h; exact viaClone (Q := Q) hq
-  | unknownPush ps =>
-    simp only [apply] at h
-    cases hq : clone P 0 ps with
-    | none => simp [hq] at h
-    | some pk => obtain ⟨Q, k⟩ := pk; simp [hq] at h; subst h; exact viaClone (Q := Q) hq
-  | appendLeft ps => exact viaTree (Q := { P with left := ps ++ P.left }) rfl h
-  | appendRight ps => exact viaTree (Q := { P with right := P.right ++ ps }) rfl h
-  | remove n =>
-    simp only [apply] at h
-    split at h
-    · exact viaTree (Q := { P with left := eraseName n P.left, right := eraseName n P.right }) rfl h
-    · injection h with h; subst h; exact ⟨c, hc, rfl, rfl⟩
-
-/-! ### freshness without aliasing: global operations first, one level of groups -/
-
-/-- the alias-free, up-to-date state. -/
-structure RInv (P : Peer) : Prop where
-  fresh : Fresh P
-  clean : ∀ (i : Nat) (c : Cont), P.conts[i]? = some c → c.middle = c.chain
-  nospare : ∀ (i : Nat) (c : Cont), P.conts[i]? = some c → c.depth ≤ 1 → c.cap = c.middle.length
-  depth0 : ∀ (i : Nat) (c : Cont), P.conts[i]? = some c → c.depth = 0 → c.middle = [] ∧ c.cap = 0
-  groups : ∀ g ∈ P.groups, ∃ c, P.conts[g]? = some c ∧ c.depth ≤ 1
-  ghead : ∃ t, P.groups = 0 :: t
-
-theorem cap16 (k : Nat) (h1 : 1 ≤ k) (h2 : k ≤ 16) : roundCap (nextCap 0 k) = k := by
-  have : k = 1 ∨ k = 2 ∨ k = 3 ∨ k = 4 ∨ k = 5 ∨ k = 6 ∨ k = 7 ∨ k = 8 ∨ k = 9 ∨ k = 10 ∨ k = 11 ∨
-      k = 12 ∨ k = 13 ∨ k = 14 ∨ k = 15 ∨ k = 16 := by omega
-  rcases this with h | h | h | h | h | h | h | h | h | h | h | h | h | h | h | h <;> subst h <;> decide
-
-theorem contAt_of_get {P : Peer} {i : Nat} {c : Cont} (h : P.conts[i]? = some c) : contAt P i = c := by
-  unfold contAt; simp [List.getD, h]
-
-theorem inPlace_false_of_nospare (par : Cont) (ps : List Plugin) (h : par.cap = par.middle.length) :
-    inPlace par ps = false := by
-  unfold inPlace
-  cases ps with
-  | nil => simp
-  | cons a t => simp [h]
-
-/-- cloning from a container of depth ≤ 1 in an alias-free state: nothing is overwritten and the
-    new container is again up to date, alias-free and (at depth 1) without spare capacity. -/
-theorem rinv_clone {P P' : Peer} {i k : Nat} {ps : List Plugin} {par : Cont} (hR : RInv P)
-    (hpar : P.conts[i]? = some par) (hd : par.depth ≤ 1) (hps : ps.length ≤ 16)
-    (h : clone P i ps = some (P', k)) :
-    Fresh P' ∧ (∀ (j : Nat) (c : Cont), P'.conts[j]? = some c → c.middle = c.chain) ∧
-    (∀ (j : Nat) (c : Cont), P'.conts[j]? = some c → c.depth ≤ 1 → c.cap = c.middle.length) ∧
-    (∀ (j : Nat) (c : Cont), P'.conts[j]? = some c → c.depth = 0 → c.middle = [] ∧ c.cap = 0) ∧
-    (∀ (j : Nat) (c : Cont), P.conts[j]? = some c → P'.conts[j]? = some c) ∧
-    (∃ c, P'.conts[k]? = some c ∧ c.depth = par.depth + 1) ∧ P'.groups = P.groups := by
-  obtain ⟨cn, g, e, hk, _, hid, hdep, hmid, hch, hcap, hall, _⟩ := clone_spec h
-  rw [contAt_of_get hpar] at hid hdep hmid hch hcap hall
-  have hns := hR.nospare i par hpar hd
-  have hip := inPlace_false_of_nospare par ps hns
-  have hg := hid hip
-  have hcl := hR.clean i par hpar
-  subst e
-  have old : ∀ {j : Nat} {x : Cont}, (P.conts.map g ++ [cn])[j]? = some x →
-      (P.conts[j]? = some x) ∨ (j = P.conts.length ∧ x = cn) := by
-    intro j x hx
-    rcases clone_mem hx with ⟨d, hd', e⟩ | h2
-    · left; rw [e, hg d]; exact hd'
-    · right; exact h2
-  refine ⟨?_, ?_, ?_, ?_, ?_, ?_, rfl⟩
-  · intro j x hx
-    rcases old hx with h1 | ⟨_, e⟩
-    · exact hR.fresh j x h1
-    · subst e; simp only; rw [hall, hch, hcl]
-  · intro j x hx
-    rcases old hx with h1 | ⟨_, e⟩
-    · exact hR.clean j x h1
-    · subst e; rw [hmid, hch, hcl]
-  · intro j x hx hdx
-    rcases old hx with h1 | ⟨_, e⟩
-    · exact hR.nospare j x h1 hdx
-    · subst e
-      have hp0 : par.depth = 0 := by omega
-      obtain ⟨hm0, hc0⟩ := hR.depth0 i par hpar hp0
-      rw [hcap, hmid, hip, hm0, hc0]
-      cases ps with
-      | nil => simp
-      | cons a t =>
-        have : 1 ≤ (a :: t).length := by simp
-        simp only [List.isEmpty_cons, Bool.or_false, Bool.false_eq_true, ↓reduceIte, List.length_nil,
-          Nat.zero_add, List.nil_append]
-        exact cap16 _ this hps
-  · intro j x hx hdx
-    rcases old hx with h1 | ⟨_, e⟩
-    · exact hR.depth0 j x h1 hdx
-    · subst e; omega
-  · intro j c hc
-    have hj : j < (P.conts.map g).length := by
-      by_cases hj : j < P.conts.length
-      · simpa using hj
-      · rw [List.getElem?_eq_none (Nat.le_of_not_lt hj)] at hc; cases hc
-    simp only; rw [List.getElem?_append_left hj, List.getElem?_map, hc]; simp [hg]
-  · refine ⟨cn, ?_, hdep⟩
-    simp only; rw [hk]
-    have : (P.conts.map g).length ≤ P.conts.length := by simp
-    rw [List.getElem?_append_right this]; simp
-
-theorem groupCont_mem {P : Peer} (hh : ∃ t, P.groups = 0 :: t) (g : Nat) : groupCont P g ∈ P.groups := by
-  obtain ⟨t, e⟩ := hh
-  unfold groupCont
-  cases hg : P.groups[g]? with
-  | none => simp [List.getD, hg]; rw [e]; simp
-  | some x => simp [List.getD, hg]; exact List.mem_of_getElem? hg
-
-theorem rinv_apply {P P' : Peer} (o : Op) (ho : o.small = true) (hS : SInv P) (hR : RInv P)
-    (h : apply P o = some P') : RInv P' := by
-  have mk : ∀ {Q : Peer} {i k : Nat} {ps : List Plugin} {par : Cont}, P.conts[i]? = some par → par.depth ≤ 1 →
-      ps.length ≤ 16 → clone P i ps = some (Q, k) → ∀ (Q' : Peer), Q'.left = Q.left → Q'.right = Q.right →
-      Q'.conts = Q.conts → (Q'.groups = Q.groups ∨ (Q'.groups = Q.groups ++ [k] ∧ par.depth = 0)) → RInv Q' := by
-    intro Q i k ps par hpar hd hps hc Q' e1 e2 e3 e4
-    obtain ⟨f1, f2, f3, f4, f5, ⟨cn, f6, f7⟩, f8⟩ := rinv_clone hR hpar hd hps hc
-    refine ⟨by unfold Fresh; rw [e1, e2, e3]; exact f1, by rw [e3]; exact f2, by rw [e3]; exact f3,
-      by rw [e3]; exact f4, ?_, ?_⟩
-    · intro g hg
-      rw [e3]
-      rcases e4 with e4 | ⟨e4, hp0⟩
-      · rw [e4, f8] at hg
-        obtain ⟨c, h1, h2⟩ := hR.groups g hg
-        exact ⟨c, f5 g c h1, h2⟩
-      · rw [e4, f8] at hg
-        simp only [List.mem_append, List.mem_singleton] at hg
-        rcases hg with hg | hg
-        · obtain ⟨c, h1, h2⟩ := hR.groups g hg
-          exact ⟨c, f5 g c h1, h2⟩
-        · subst hg; exact ⟨cn, f6, by omega⟩
-    · obtain ⟨t, et⟩ := hR.ghead
-      rcases e4 with e4 | ⟨e4, _⟩
-      · exact ⟨t, by rw [e4, f8, et]⟩
-      · exact ⟨t ++ [k], by rw [e4, f8, et]; rfl⟩
-  obtain ⟨r, hr0, hrd, _⟩ := hS.root
-  have grp : ∀ g, ∃ par, P.conts[groupCont P g]? = some par ∧ par.depth ≤ 1 :=
-    fun g => hR.groups _ (groupCont_mem hR.ghead g)
-  cases o with
-  | subRoute g ps =>
-    simp [Op.small] at ho
-    obtain ⟨hg0, hps⟩ := ho
-    subst hg0
-    have hgc : groupCont P 0 = 0 := by
-      obtain ⟨t, et⟩ := hR.ghead; simp [groupCont, et]
-    simp only [apply, hgc] at h
-    cases hc : clone P 0 ps with
+    cases hc : clone P (groupCont P g) ps with
     | none => simp [hc] at h
     | some pk =>
       obtain ⟨Q, k⟩ := pk; simp [hc] at h; subst h
-      exact mk hr0 (by omega) hps hc _ rfl rfl rfl (Or.inr ⟨rfl, hrd⟩)
+      exact (tinv_clone hP hc).1.mono (Nat.le_refl _) rfl rfl rfl rfl
   | routeCall g id ps =>
-    simp [Op.small] at ho
-    obtain ⟨par, hp1, hp2⟩ := grp g
     simp only [apply] at h
     cases hc : clone P (groupCont P g) ps with
     | none => simp [hc] at h
     | some pk =>
       obtain ⟨Q, k⟩ := pk; simp [hc] at h
       obtain ⟨_, h⟩ := h; subst h
-      exact mk hp1 hp2 ho hc _ rfl rfl rfl (Or.inl rfl)
+      obtain ⟨hQ, hk⟩ := tinv_clone hP hc
+      refine ⟨?_, hQ.pushes, hQ.unkCall, hQ.unkPush⟩
+      intro e he
+      simp only [List.mem_append, List.mem_singleton] at he
+      rcases he with he | he
+      · exact hQ.calls e he
+      · subst he; exact hk
   | routePush g id ps =>
-    simp [Op.small] at ho
-    obtain ⟨par, hp1, hp2⟩ := grp g
     simp only [apply] at h
     cases hc : clone P (groupCont P g) ps with
     | none => simp [hc] at h
     | some pk =>
       obtain ⟨Q, k⟩ := pk; simp [hc] at h
       obtain ⟨_, h⟩ := h; subst h
-      exact mk hp1 hp2 ho hc _ rfl rfl rfl (Or.inl rfl)
+      obtain ⟨hQ, hk⟩ := tinv_clone hP hc
+      refine ⟨hQ.calls, ?_, hQ.unkCall, hQ.unkPush⟩
+      intro e he
+      simp only [List.mem_append, List.mem_singleton] at he
+      rcases he with he | he
+      · exact hQ.pushes e he
+      · subst he; exact hk
   | unknownCall ps =>
-    simp [Op.small] at ho
     simp only [apply] at h
     cases hc : clone P 0 ps with
     | none => simp [hc] at h
     | some pk =>
       obtain ⟨Q, k⟩ := pk; simp [hc] at h; subst h
-      exact mk hr0 (by omega) ho hc _ rfl rfl rfl (Or.inl rfl)
+      obtain ⟨hQ, hk⟩ := tinv_clone hP hc
+      exact ⟨hQ.calls, hQ.pushes, fun k' e => by simp at e; subst e; exact hk, hQ.unkPush⟩
   | unknownPush ps =>
-    simp [Op.small] at ho
     simp only [apply] at h
     cases hc : clone P 0 ps with
     | none => simp [hc] at h
     | some pk =>
       obtain ⟨Q, k⟩ := pk; simp [hc] at h; subst h
-      exact mk hr0 (by omega) ho hc _ rfl rfl rfl (Or.inl rfl)
-  | appendLeft ps => simp [Op.small] at ho
-  | appendRight ps => simp [Op.small] at ho
-  | remove n => simp [Op.small] at ho
-
-theorem rinv_run : ∀ (ops : List Op) {P P' : Peer}, (∀ o ∈ ops, o.small = true) → SInv P → RInv P →
-    run P ops = some P' → RInv P' := by
-  intro ops
-  induction ops with
-  | nil => intro P P' _ _ hR h; simp [run] at h; subst h; exact hR
-  | cons o os ih =>
-    intro P P' hs hS hR h
-    simp only [run] at h
-    cases ha : apply P o with
-    | none => simp [ha] at h
-    | some Q =>
-      simp [ha] at h
-      exact ih (fun x hx => hs x (by simp [hx])) (sinv_apply o hS ha) (rinv_apply o (hs o (by simp)) hS hR ha) h
-
-/-- only the global container exists (before any routing). -/
-def AllRoot (P : Peer) : Prop := (∀ (i : Nat) (c : Cont), P.conts[i]? = some c → i = 0) ∧ P.groups = [0]
-
-theorem allRoot_refreshTree {P Q P' : Peer} (hP : AllRoot P) (hQ : Q.conts = P.conts) (hG : Q.groups = P.groups)
-    (h : refreshTree Q = some P') : AllRoot P' := by
-  obtain ⟨_, _, hg, _, _, _, _, hi⟩ := refreshTree_spec h
-  refine ⟨?_, by rw [hg, hG]; exact hP.2⟩
-  intro i c' hc'
-  rw [hi i, hQ] at hc'
-  cases hg : P.conts[i]? with
-  | none => simp [hg] at hc'
-  | some c => exact hP.1 i c hg
-
-theorem allRoot_apply_global {P P' : Peer} (o : Op) (hg : o.isGlobal = true) (hP : AllRoot P)
-    (h : apply P o = some P') : AllRoot P' := by
-  cases o with
-  | appendLeft ps => exact allRoot_refreshTree (Q := { P with left := ps ++ P.left }) hP rfl rfl h
-  | appendRight ps => exact allRoot_refreshTree (Q := { P with right := P.right ++ ps }) hP rfl rfl h
+      obtain ⟨hQ, hk⟩ := tinv_clone hP hc
+      exact ⟨hQ.calls, hQ.pushes, hQ.unkCall, fun k' e => by simp at e; subst e; exact hk⟩
+  | appendLeft ps => exact viaTree (Q := { P with left := ps ++ P.left }) rfl rfl rfl rfl rfl h
+  | appendRight ps => exact viaTree (Q := { P with right := P.right ++ ps }) rfl rfl rfl rfl rfl h
   | remove n =>
     simp only [apply] at h
     split at h
-    · exact allRoot_refreshTree (Q := { P with left := eraseName n P.left, right := eraseName n P.right }) hP rfl rfl h
+    · exact viaTree (Q := { P with left := eraseName n P.left, right := eraseName n P.right }) rfl rfl rfl rfl rfl h
     · injection h with h; subst h; exact hP
-  | subRoute g ps => simp [Op.isGlobal] at hg
-  | routeCall g id ps => simp [Op.isGlobal] at hg
-  | routePush g id ps => simp [Op.isGlobal] at hg
-  | unknownCall ps => simp [Op.isGlobal] at hg
-  | unknownPush ps => simp [Op.isGlobal] at hg
 
-theorem allRoot_run_global : ∀ (ops : List Op) {P P' : Peer}, (∀ o ∈ ops, o.isGlobal = true) → AllRoot P →
-    run P ops = some P' → AllRoot P' := by
+theorem tinv_run : ∀ (ops : List Op) {P P' : Peer}, TInv P → run P ops = some P' → TInv P' := by
   intro ops
   induction ops with
-  | nil => intro P P' _ hP h; simp [run] at h; subst h; exact hP
+  | nil => intro P P' hP h; simp [run] at h; subst h; exact hP
   | cons o os ih =>
-    intro P P' hg hP h
+    intro P P' hP h
     simp only [run] at h
     cases ha : apply P o with
     | none => simp [ha] at h
-    | some Q =>
-      simp [ha] at h
-      exact ih (fun x hx => hg x (by simp [hx])) (allRoot_apply_global o (hg o (by simp)) hP ha) h
+    | some Q => simp [ha] at h; exact ih (tinv_apply o hP ha) h
 
-theorem allRoot_new : AllRoot Peer.new := by
-  refine ⟨?_, rfl⟩
-  intro i c h
-  cases i with
-  | zero => rfl
-  | succ j => simp [Peer.new] at h
+theorem lookup_mem (id : Nat) : ∀ (l : List (Nat × Nat)) (k : Nat), lookup id l = some k → (id, k) ∈ l := by
+  intro l
+  induction l with
+  | nil => intro k h; simp [lookup] at h
+  | cons e r ih =>
+    intro k h
+    obtain ⟨a, b⟩ := e
+    unfold lookup at h
+    split at h
+    · rename_i ha; injection h with h; subst h; subst ha; simp
+    · exact List.mem_cons_of_mem _ (ih k h)
 
-theorem rinv_of_allRoot {P : Peer} (hS : SInv P) (hA : AllRoot P) : RInv P := by
-  obtain ⟨r, h0, h1, h2, h3, h4, h5⟩ := hS.root
-  have only : ∀ (i : Nat) (c : Cont), P.conts[i]? = some c → c = r := by
-    intro i c hc
-    have := hA.1 i c hc; subst this
-    rw [h0] at hc; injection hc with hc; exact hc.symm
-  refine ⟨?_, ?_, ?_, ?_, ?_, ⟨[], hA.2⟩⟩
-  · intro i c hc; rw [only i c hc, h5, h3]; simp
-  · intro i c hc; rw [only i c hc, h2, h3]
-  · intro i c hc _; rw [only i c hc, h4, h2]; rfl
-  · intro i c hc _; rw [only i c hc]; exact ⟨h2, h4⟩
-  · intro g hg; rw [hA.2] at hg; simp at hg; subst hg; exact ⟨r, h0, by omega⟩
+theorem TInv.getCall_lt {P : Peer} (hP : TInv P) {id k : Nat} (h : getCall P id = some k) : k < P.conts.length := by
+  unfold getCall at h
+  split at h
+  · rename_i k' hl; injection h with h; subst h; exact hP.calls _ (lookup_mem id _ _ hl)
+  · exact hP.unkCall k h
+
+theorem TInv.getPush_lt {P : Peer} (hP : TInv P) {id k : Nat} (h : getPush P id = some k) : k < P.conts.length := by
+  unfold getPush at h
+  split at h
+  · rename_i k' hl; injection h with h; subst h; exact hP.pushes _ (lookup_mem id _ _ hl)
+  · exact hP.unkPush k h
 
 /-! ### the step lists of the receiving side are well-formed -/
 
